@@ -80,7 +80,7 @@ def _satsolve_filein_fileout(F, cmd='minisat', verbose=0):
                              stdin=subprocess.PIPE,
                              stdout=subprocess.PIPE)
         (output, _) = p.communicate()
-        sat = open(sat.name, "r", encoding='ascii')
+        sat = open(sat.name, "r", encoding='ascii', errors='replace')
         foutput = sat.read().split()
         sat.close()
     except OSError:
@@ -97,7 +97,7 @@ def _satsolve_filein_fileout(F, cmd='minisat', verbose=0):
     result = None
     witness = None
 
-    output = output.decode("ascii")
+    output = output.decode("ascii", errors='replace')
     if verbose >= 2:
         print(output, file=sys.stderr)
 
@@ -110,7 +110,11 @@ def _satsolve_filein_fileout(F, cmd='minisat', verbose=0):
 
         result = True
 
-        witness = [int(v) for v in foutput[1:] if v != '0']
+        try:
+            witness = [int(v) for v in foutput[1:] if v != '0']
+        except ValueError:
+            raise RuntimeError("Error during SAT solver call: {}.\n".format(
+                " ".join([cmd, cnf.name, sat.name])))
         # Sort the the witness by variable id
         witness = sorted(witness, key=abs)
 
@@ -202,27 +206,31 @@ def _satsolve_stdin_stdout(F, cmd='lingeling', verbose=0):
     result = None
 
     # result is given as ASCII encoded text
-    output = output.decode('ascii')
+    try:
+        output = output.decode('ascii')
 
-    if verbose >= 2:
-        print(output, file=sys.stderr)
+        if verbose >= 2:
+            print(output, file=sys.stderr)
 
-    for line in output.splitlines():
+        for line in output.splitlines():
 
-        if len(line) == 0:
-            continue
+            if len(line) == 0:
+                continue
 
-        if line[0] == 's':
-            if line.split()[1] == 'SATISFIABLE':
-                result = True
-            elif line.split()[1] == 'UNSATISFIABLE':
-                result = False
-            else:
-                result = None
-        if line[0] == 'v':
-            witness += [
-                int(el) for el in line.split() if el != "v" and el != "0"
-            ]
+            if line[0] == 's':
+                if line.split()[1] == 'SATISFIABLE':
+                    result = True
+                elif line.split()[1] == 'UNSATISFIABLE':
+                    result = False
+                else:
+                    result = None
+            if line[0] == 'v':
+                witness += [
+                    int(el) for el in line.split() if el != "v" and el != "0"
+                ]
+    except (ValueError, IndexError):
+        # malformed or truncated solver output
+        result = None
 
     if result is None:
         raise RuntimeError("Error during SAT solver call: {}.\n".format(cmd))
@@ -298,26 +306,30 @@ def _satsolve_filein_stdout(F, cmd='sat4j', verbose=0):
     result = None
 
     # result is given as ASCII encoded text
-    output = output.decode('ascii')
-    if verbose >= 2:
-        print(output, file=sys.stderr)
+    try:
+        output = output.decode('ascii')
+        if verbose >= 2:
+            print(output, file=sys.stderr)
 
-    for line in output.splitlines():
+        for line in output.splitlines():
 
-        if len(line) == 0:
-            continue
+            if len(line) == 0:
+                continue
 
-        if line[0] == 's':
-            if line.split()[1] == 'SATISFIABLE':
-                result = True
-            elif line.split()[1] == 'UNSATISFIABLE':
-                result = False
-            else:
-                result = None
-        if line[0] == 'v':
-            witness += [
-                int(el) for el in line.split() if el != "v" and el != "0"
-            ]
+            if line[0] == 's':
+                if line.split()[1] == 'SATISFIABLE':
+                    result = True
+                elif line.split()[1] == 'UNSATISFIABLE':
+                    result = False
+                else:
+                    result = None
+            if line[0] == 'v':
+                witness += [
+                    int(el) for el in line.split() if el != "v" and el != "0"
+                ]
+    except (ValueError, IndexError):
+        # malformed or truncated solver output
+        result = None
 
     if result is None:
         raise RuntimeError(
